@@ -190,3 +190,21 @@ NOT_APPLICABLE = {
  "C28": "URI parse/join round trip is string-grammar equivalence over all inputs (runtime values)",
  "C39": "equality with a reference parser of resolv.conf/hosts syntax over all file contents; no bounded-buffer idiom to anchor a guard rule",
 }
+
+# ---- session 3 additions (same conventions)
+ORDER_NOTE = (" The order-type rules evaluate the *extracted* condition trees and stores of a small CFG region on one representative per order type of the "
+              "compared operands (sec </=/> x usec </=/>, plus carry/borrow representatives where arithmetic is involved); regions that leave the pure fragment "
+              "end as analysis-broken. No libevent code is executed.")
+CLAIMED.update({
+ "C01": {"level": "other",
+         "text": "Structural clauses of the timer property on event.c/minheap-internal.h: the expiry loops (timeout_process, common_timeout_callback) activate a queue head "
+                 "with EV_TIMEOUT exactly when deadline <= now on all nine order types, against a clock read once before the loop, and go back for the next head; timeout_next "
+                 "hands the backend zero iff deadline <= now, else deadline - now, NULL for an empty heap, through the very pointer dispatch receives; timeout_process follows "
+                 "dispatch and the time-cache update on every path; only the queue-owner functions touch the heap, the common queues and ev_timeout (who-may over all units); "
+                 "insert_common_timeout_inorder scans from the tail and inserts after the first element with deadline <= the new one (FIFO among equals); every heap slot store "
+                 "carries its back-pointer store, removals reset it, each of the six heap comparisons has the orientation its use needs; the common-queue head timer is re-armed "
+                 "on every path at the head's masked absolute deadline from both places that can change the head; event_persist_closure re-arms at (previous deadline | now) + "
+                 "interval with the catch-up clause, before the user callback. Declined: exactly-once per add over add/del histories, heap permutation correctness, clock jumps.",
+         "note": STD_NOTE + ORDER_NOTE,
+         "technique": "static analysis: order-type enumeration of extracted comparison regions (K4/K6), who-may-call/write (K2), must-pass-through ordering (K3), store pairing (K5), orientation table (K7)"},
+})
